@@ -90,7 +90,10 @@ C23(rec) ==
         info == <<rec.kind, rec.req, "inputs", TxIns(rec), "locked", rec.locked, "non-cardinal", nc, rec.tag>>
     IN /\ Chk("C23.lockedFirst", \A o \in nc \ subj : o \in locked, info)
        /\ Chk("C23.noStrayInput", \A o \in ins : o \in nc => o \in subj, info)
-       /\ Chk("C23.ownInputs", \A i \in 1..Len(rec.tx.ins) : rec.tx.ins[i].wallet, info)
+       \* an offer spends the seller's output (not ours) plus our funding
+       /\ Chk("C23.ownInputs", IF rec.kind = "offer" THEN Cardinality({i \in 1..Len(rec.tx.ins) : ~rec.tx.ins[i].wallet}) = 1
+                                ELSE \A i \in 1..Len(rec.tx.ins) : rec.tx.ins[i].wallet, info)
+       /\ Chk("C23.nothingBroadcastByOffer", rec.kind = "offer" => rec.broadcast = 0, info)
 
 \* ---------------------------------------------------------------- model conformance
 Built(rec) ==
